@@ -45,6 +45,14 @@ def step (line : String) : String :=
     | some t1, some t2, some dt =>
       s!"cmd={corr_mat_dim t2 dt} corr={correlation_corr_mat_dim t2 dt} ker={kernel_ker_dim t2 dt} switch={kernel_switch t1 dt}"
     | _, _, _ => "bad-op"
+  | ["tlist", n, dt] =>
+    -- the time axis of occupation(): count, then the labels
+    match parseInt? n, parseRat? dt with
+    | some n, some dt =>
+      let c := occupation_tlist_count n dt
+      s!"count={c} times=" ++ ",".intercalate
+        ((List.range c.toNat).map (fun (k : Nat) => showRat (occupation_tlist_label n dt (k : Int))))
+    | _, _ => "bad-op"
   | ["last", n, dt] =>
     match parseInt? n, parseRat? dt with
     | some n, some dt =>
